@@ -283,6 +283,7 @@ pub struct Check {
     pub scale: f64,
     rule: String,
     replay: Option<(String, Value)>,
+    replay_path: Option<String>,
     only: Option<Vec<String>>,
     known: Known,
     reports: Vec<SubReport>,
@@ -307,6 +308,7 @@ impl Check {
             _ => Tier::Quick,
         };
         let mut replay = None;
+        let mut replay_path: Option<String> = None;
         let mut only = None;
         let mut scale = std::env::var("VERIF_SCALE").ok().and_then(|s| s.parse().ok()).unwrap_or(1.0);
         let mut strict = false;
@@ -328,6 +330,7 @@ impl Check {
                     let v: Value = serde_json::from_str(&txt).unwrap_or_else(|e| infra(&format!("replay file {p}: {e}")));
                     let sub = v["sub"].as_str().unwrap_or_else(|| infra("replay file lacks sub")).to_string();
                     replay = Some((sub, v["case"].clone()));
+                    replay_path = Some(p.clone());
                     strict = true;
                 }
                 "--only" => {
@@ -350,6 +353,7 @@ impl Check {
             scale,
             rule: rule.to_string(),
             replay,
+            replay_path,
             only,
             known: Known::load(),
             reports: Vec::new(),
@@ -428,7 +432,22 @@ impl Check {
             if sub == name {
                 self.replay_hit = true;
                 let c: C = serde_json::from_value(case.clone()).unwrap_or_else(|e| infra(&format!("cannot decode replay case: {e}")));
+                // a replayed case that ends in a memory fault or an abort is a violation as well
+                {
+                    install_crash_handler();
+                    let (rprop, rname) = (self.property.to_string(), name.to_string());
+                    let replay_path = self.replay_path.clone().unwrap_or_default();
+                    let hook: CrashHook = std::sync::Arc::new(move |_tid: u64, sig: i32| -> bool {
+                        println!("REPLAY property={rprop} sub={rname} verdict=violation the process was stopped by {} while this case was being evaluated", signal_name(sig));
+                        println!("VIOLATION property={rprop} replay={replay_path}");
+                        true
+                    });
+                    *CRASH_HOOK.lock().unwrap() = Some(hook);
+                }
                 let o = run_one(&c);
+                if let Ok(mut g) = CRASH_HOOK.lock() {
+                    *g = None;
+                }
                 match &o.verdict {
                     Verdict::Pass => println!("REPLAY property={} sub={} verdict=pass", self.property, name),
                     Verdict::Known(id) => println!("REPLAY property={} sub={} verdict=known-finding {}", self.property, name, id),
@@ -471,6 +490,46 @@ impl Check {
         let evals_total = std::sync::atomic::AtomicU64::new(0);
         let hang_limit_s: u64 = std::env::var("DV_HANG_LIMIT").ok().and_then(|s| s.parse().ok()).unwrap_or(150);
         let (wprop, wseed, wtier) = (self.property, self.seed, self.tier);
+
+        // crash hook for this sub: the slot of the crashing thread holds the case
+        {
+            install_crash_handler();
+            let slots_addr = &slots as *const Vec<std::sync::Mutex<Option<(u64, u64, C)>>> as usize;
+            let evals_addr = &evals_total as *const std::sync::atomic::AtomicU64 as usize;
+            let sub_name = name.to_string();
+            let hook: CrashHook = std::sync::Arc::new(move |tid: u64, sig: i32| -> bool {
+                // SAFETY: the hook is removed before `slots` and `evals_total` go out of scope (below)
+                let slots = unsafe { &*(slots_addr as *const Vec<std::sync::Mutex<Option<(u64, u64, C)>>>) };
+                let evals = unsafe { &*(evals_addr as *const std::sync::atomic::AtomicU64) };
+                for slot in slots.iter() {
+                    if let Ok(g) = slot.try_lock() {
+                        if let Some((t, _, case)) = &*g {
+                            if *t == tid {
+                                let sig_txt = format!("the process was stopped by {} while this case was being evaluated (memory fault or abort inside the library)", signal_name(sig));
+                                let path = write_replay_file(wprop, wseed, wtier, &sub_name, case, &sig_txt);
+                                println!("VIOLATION property={} replay={}", wprop, path.display());
+                                println!("  sub={} signature={}", sub_name, sig_txt);
+                                write_abort_evidence(wprop, wseed, wtier, &sub_name, evals.load(Ordering::Relaxed), case, &sig_txt, &path);
+                                return true;
+                            }
+                        }
+                    }
+                }
+                false
+            });
+            // SAFETY of the 'static bound: see above; the closure only lives in CRASH_HOOK until the reset below
+            let hook: CrashHook = unsafe { std::mem::transmute::<std::sync::Arc<dyn Fn(u64, i32) -> bool + Send + Sync + '_>, CrashHook>(hook) };
+            *CRASH_HOOK.lock().unwrap() = Some(hook);
+        }
+        struct HookReset;
+        impl Drop for HookReset {
+            fn drop(&mut self) {
+                if let Ok(mut g) = CRASH_HOOK.lock() {
+                    *g = None;
+                }
+            }
+        }
+        let _hook_reset = HookReset;
 
         std::thread::scope(|sc| {
             // monitor
@@ -853,6 +912,61 @@ impl Check {
 }
 
 fn install_thread() {}
+
+// ---- crash handler: a memory fault or an abort inside the library while a case is being
+// evaluated becomes a VIOLATION with a replay file (instead of a dead check process)
+type CrashHook = std::sync::Arc<dyn Fn(u64, i32) -> bool + Send + Sync>;
+static CRASH_HOOK: std::sync::Mutex<Option<CrashHook>> = std::sync::Mutex::new(None);
+
+static CRASH_OWNER: std::sync::atomic::AtomicU64 = std::sync::atomic::AtomicU64::new(0);
+
+extern "C" fn on_crash(sig: libc::c_int) {
+    let tid = current_tid().max(1);
+    match CRASH_OWNER.compare_exchange(0, tid, Ordering::SeqCst, Ordering::SeqCst) {
+        Ok(_) => {}
+        // a fault inside this handler: give up
+        Err(owner) if owner == tid => unsafe { libc::_exit(2) },
+        // another worker crashed at the same time and is reporting: wait for it to end the process
+        Err(_) => loop {
+            std::thread::sleep(std::time::Duration::from_secs(1));
+        },
+    }
+    let hook = CRASH_HOOK.try_lock().ok().and_then(|g| g.clone());
+    let handled = match hook {
+        Some(h) => h(tid, sig),
+        None => false,
+    };
+    if !handled {
+        println!("INFRA: the check process received signal {sig} outside the evaluation of a case");
+    }
+    use std::io::Write;
+    let _ = std::io::stdout().flush();
+    unsafe { libc::_exit(if handled { 1 } else { 2 }) }
+}
+
+fn install_crash_handler() {
+    static ONCE: std::sync::Once = std::sync::Once::new();
+    ONCE.call_once(|| unsafe {
+        for sig in [libc::SIGSEGV, libc::SIGBUS, libc::SIGILL, libc::SIGABRT, libc::SIGFPE] {
+            let mut sa: libc::sigaction = std::mem::zeroed();
+            sa.sa_sigaction = on_crash as usize;
+            sa.sa_flags = libc::SA_ONSTACK | libc::SA_NODEFER;
+            libc::sigemptyset(&mut sa.sa_mask);
+            libc::sigaction(sig, &sa, std::ptr::null_mut());
+        }
+    });
+}
+
+fn signal_name(sig: i32) -> &'static str {
+    match sig {
+        libc::SIGSEGV => "SIGSEGV",
+        libc::SIGBUS => "SIGBUS",
+        libc::SIGILL => "SIGILL",
+        libc::SIGABRT => "SIGABRT",
+        libc::SIGFPE => "SIGFPE",
+        _ => "signal",
+    }
+}
 
 /// kernel thread id of the calling thread (Linux), 0 if unknown
 fn current_tid() -> u64 {
